@@ -423,6 +423,10 @@ impl FixtureDatabase {
             debug!("Circular import detected for {:?}, skipping", file_path);
             return HashSet::new();
         }
+        // A result computed while other files are already on the visiting path is cut short
+        // at those files (cycle breaking) and is only valid in that context: it must not be
+        // memoised. Only a top-level computation yields the file's full import closure.
+        let is_top_level = visited.is_empty();
         visited.insert(canonical_path.clone());
 
         // Get the file content first (needed for cache validation)
@@ -447,15 +451,17 @@ impl FixtureDatabase {
         // Compute imported fixtures
         let imported_fixtures = self.compute_imported_fixtures(&canonical_path, &content, visited);
 
-        // Store in cache
-        self.imported_fixtures_cache.insert(
-            canonical_path.clone(),
-            (
-                content_hash,
-                current_version,
-                Arc::new(imported_fixtures.clone()),
-            ),
-        );
+        // Store in cache (complete results only, see above)
+        if is_top_level {
+            self.imported_fixtures_cache.insert(
+                canonical_path.clone(),
+                (
+                    content_hash,
+                    current_version,
+                    Arc::new(imported_fixtures.clone()),
+                ),
+            );
+        }
 
         info!(
             "Found {} imported fixtures for {:?}: {:?}",
